@@ -449,7 +449,20 @@ func (p *play) run(bin, root string) {
 		must(os.MkdirAll(d, 0755))
 	}
 	must(ioutil.WriteFile(filepath.Join(fake, "scp"), []byte("#!/bin/sh\necho fake scp \"$@\"\nexit 0\n"), 0755))
-	must(ioutil.WriteFile(filepath.Join(fake, "gnuplot-ok"), []byte("#!/bin/sh\necho plotted \"$@\"\nexit 0\n"), 0755))
+	// a stand-in for gnuplot as far as its working directory goes: the
+	// script is opened, `set output` targets are created and `load`ed scripts
+	// are looked up relative to the current directory
+	must(ioutil.WriteFile(filepath.Join(fake, "gnuplot-ok"), []byte(`#!/bin/sh
+f="$1"
+[ -f "$f" ] || { echo "cannot open $f" >&2; exit 1; }
+while IFS= read -r line; do
+  case "$line" in
+    "set output '"*) o=${line#set output \'}; o=${o%\'}; : > "$o" || exit 1 ;;
+    "load '"*) l=${line#load \'}; l=${l%\'}; [ -f "$l" ] || { echo "cannot load $l" >&2; exit 1; } ;;
+  esac
+done < "$f"
+exit 0
+`), 0755))
 	must(ioutil.WriteFile(filepath.Join(fake, "gnuplot-fail"), []byte("#!/bin/sh\necho cannot plot \"$@\" >&2\nexit 1\n"), 0755))
 	p.Cwd = cwd
 	p.Cfg = p.config()
@@ -726,6 +739,19 @@ func (p *play) inspect(runDir string) {
 		if _, err := os.Stat(filepath.Join(runDir, "plots", "lastplot.gp")); err != nil || !strings.Contains(string(rb), "load 'lastplot.gp'") {
 			p.PlotFilesExist = false
 			p.MissingPlotFiles = append(p.MissingPlotFiles, "Repeat section without lastplot.gp / its load line")
+		}
+	}
+	if p.PlotsDir && p.Gnuplot == "ok" {
+		// a working gnuplot leaves its outputs in <run>/plots
+		want := []string{"plot.pdf", "plot.svg", "plot.txt"}
+		if p.RepeatSection {
+			want = append(want, "lastplot.pdf", "lastplot.svg", "lastplot.txt")
+		}
+		for _, w := range want {
+			if _, err := os.Stat(filepath.Join(runDir, "plots", w)); err != nil {
+				p.PlotFilesExist = false
+				p.MissingPlotFiles = append(p.MissingPlotFiles, "gnuplot ran but plots/"+w+" is not there")
+			}
 		}
 	}
 	gps, _ := filepath.Glob(filepath.Join(runDir, "plots", "*.gp"))
